@@ -124,26 +124,39 @@ def drive(case, rng, profile, test_ids=True, mutate=False, max_calls=80, script=
     return out
 
 
+VERDICT_RE = r"(\d+), (None|Some \d+), (None|Some \d+), (true|false), (true|false)"
+
+
 def judge_cases(cases_with_runs, workdir, jobs=8, proj="P_full", mon="mon_true"):
-    """cases_with_runs: list of (case, drive-result).  Returns list of verdict dicts
-    (see PFDL.Monitors.verdict)."""
+    """cases_with_runs: list of (case, drive-result).  Returns one dict per case:
+    the verdict of the reference semantics (PFDL.Monitors.judge_with) with the verdict of
+    the net model (PFDL.NetRun.judge_net_with) under key "net"."""
     items = []
     for k, (case, dr) in enumerate(cases_with_runs):
         I = Interner()
         c = coqeval.coq_runcase(I, case, dr["script"])
         tr = pfdl_ast.coq_list([coqeval.coq_callrec(I, r) for r in dr["trace"]])
         defs = "Definition c%d : runcase := %s.\nDefinition i%d : list callrec := %s.\n" % (k, c, k, tr)
-        items.append((defs, "let v := judge_with %s %s c%d i%d in (v_model v, v_disagree v, v_full_disagree v, v_mon_impl v, v_mon_model v)" % (proj, mon, k, k)))
+        items.append((defs, "let v := judge_with %s %s c%d i%d in let w := judge_net_with %s %s c%d i%d in "
+                            "((v_model v, v_disagree v, v_full_disagree v, v_mon_impl v, v_mon_model v), "
+                            "(v_model w, v_disagree w, v_full_disagree w, v_mon_impl w, v_mon_model w))"
+                      % (proj, mon, k, k, proj, mon, k, k)))
     raw = coqeval.eval_many(items, workdir, jobs=jobs, header=coqeval.HEADER_MON)
     out = []
+    opt = lambda x: None if x == "None" else int(x.split()[1])  # noqa: E731
     for r in raw:
         t = coqeval.parse_result(r)
-        m = re.match(r"^\((\d+), (None|Some \d+), (None|Some \d+), (true|false), (true|false)\)$", t)
+        m = re.match(r"^\(" + VERDICT_RE + r", \(" + VERDICT_RE + r"\)\)$", t)
         if not m:
             raise RuntimeError("unparsable verdict: " + t)
-        opt = lambda x: None if x == "None" else int(x.split()[1])
-        out.append({"model": int(m.group(1)), "disagree": opt(m.group(2)), "full_disagree": opt(m.group(3)),
-                    "mon_impl": m.group(4) == "true", "mon_model": m.group(5) == "true"})
+        g = m.groups()
+
+        def mk(h):
+            return {"model": int(h[0]), "disagree": opt(h[1]), "full_disagree": opt(h[2]),
+                    "mon_impl": h[3] == "true", "mon_model": h[4] == "true"}
+        v = mk(g[0:5])
+        v["net"] = mk(g[5:10])
+        out.append(v)
     return out
 
 
